@@ -26,17 +26,31 @@ Inductive content :=
 | Unparsable                       (* valid UTF-8, syn::parse_file fails *)
 | NotUtf8.                         (* std::fs::read_to_string fails *)
 
+(* what a symbolic link resolves to (the target may lie inside or outside the project path:
+   the code only ever looks through the link) *)
+Inductive link_target :=
+| LFile (c : content)              (* a regular file with these contents *)
+| LDir                             (* a directory *)
+| LDangling.                       (* nothing *)
+
 Inductive node :=
 | NFile (name : str) (c : content)
-| NDir (name : str) (children : list node).
+| NDir (name : str) (children : list node)
+| NLink (name : str) (t : link_target).
 Definition layout := list node.     (* the entries of the project root *)
 
-(* ---- WalkDir: every file with its components below the root (directories themselves
-   fail path.is_file() and only contribute a component) ---- *)
+(* ---- WalkDir + path.is_file(): every entry that is a regular file, directly or through a
+   symbolic link, with its components below the root (directories fail path.is_file() and
+   only contribute a component; links to directories and dangling links fail it too) ---- *)
 Fixpoint walk_node (dirs : list str) (n : node) : list (list str * content) :=
   match n with
   | NFile name c => [(dirs ++ [name], c)]
   | NDir name ch => flat_map (walk_node (dirs ++ [name])) ch
+  | NLink name t =>
+      (* WalkDir::new without follow_links yields the link itself and never descends into it;
+         path.is_file() and read_to_string(path) follow the link: the entry counts exactly when
+         it resolves to a regular file, under the NAME AND PLACE OF THE LINK *)
+      match t with LFile c => [(dirs ++ [name], c)] | LDir => [] | LDangling => [] end
   end.
 Definition walk_nodes (dirs : list str) (l : layout) : list (list str * content) :=
   flat_map (walk_node dirs) l.
